@@ -27,7 +27,7 @@ Inductive tag :=
 | T_tracked_changes | T_changed_region | T_deletion | T_insertion | T_change_start | T_change_end | T_change
 | T_soft_page_break | T_bookmark | T_sequence_decls
 | TB_table | TB_column | TB_row | TB_cell | TB_covered_cell | TB_header_rows
-| D_frame | D_text_box
+| D_frame | D_text_box | D_g | D_page | PR_notes | O_presentation
 | DC_creator | DC_date
 (* anything else (foreign namespace) *)
 | X_other (n : N).
@@ -44,12 +44,14 @@ Definition ns_text := s "urn:oasis:names:tc:opendocument:xmlns:text:1.0".
 Definition ns_table := s "urn:oasis:names:tc:opendocument:xmlns:table:1.0".
 Definition ns_draw := s "urn:oasis:names:tc:opendocument:xmlns:drawing:1.0".
 Definition ns_dc := s "http://purl.org/dc/elements/1.1/".
+Definition ns_presentation := s "urn:oasis:names:tc:opendocument:xmlns:presentation:1.0".
+Definition ns_svg := s "urn:oasis:names:tc:opendocument:xmlns:svg-compatible:1.0".
 Definition ns_x := s "urn:x-verif:other".
 
 Definition prefixes : list (str * str) :=
   [ (s "w", ns_w); (s "mc", ns_mc); (s "wps", ns_wps); (s "wp", ns_wp); (s "a", ns_a); (s "v", ns_v);
     (s "office", ns_office); (s "text", ns_text); (s "table", ns_table); (s "draw", ns_draw);
-    (s "dc", ns_dc); (s "x", ns_x) ].
+    (s "dc", ns_dc); (s "presentation", ns_presentation); (s "svg", ns_svg); (s "x", ns_x) ].
 
 Definition dec (n : N) : str := s (NilZero.string_of_uint (N.to_uint n)).
 
@@ -100,6 +102,8 @@ Definition tag_parts (t : tag) : str * str :=
   | TB_covered_cell => (s "table", s "covered-table-cell")
   | TB_header_rows => (s "table", s "table-header-rows")
   | D_frame => (s "draw", s "frame") | D_text_box => (s "draw", s "text-box")
+  | D_g => (s "draw", s "g") | D_page => (s "draw", s "page")
+  | PR_notes => (s "presentation", s "notes") | O_presentation => (s "office", s "presentation")
   | DC_creator => (s "dc", s "creator") | DC_date => (s "dc", s "date")
   | X_other n => (s "x", s "o" ++ dec n)
   end.
